@@ -6,7 +6,12 @@ opcode fetch + Spec.fetched operand bytes + Spec.dataAccesses (accesses_nmos6502
 accesses_org16, no opcode excluded, no side condition); interrupts, reset and the waiting 65C02
 likewise.  Here: translator validation (the generated model's log equals the real device's log,
 event for event) and the Spec-vs-real differential on the access multiset (failing-input search)."""
+import multiprocessing
+import random
+
 import cpu_props
+from common import RecMem, device_classes, widths
+from cpu_diff import real_observe
 
 ID = 'C12'
 LEAN_MODULES = ['Py65.Props.C12']
@@ -16,7 +21,7 @@ EXPECTED_THEOREMS = ['Py65.Props.C12.accesses_nmos6502', 'Py65.Props.C12.accesse
                      'Py65.Props.C12.fetched_sublist']
 TRUSTED = ['Spec.Access / Spec.AccessAll (hand-written: the accesses each instruction definition implies)',
            'translator harness/py2lean.py: memGet/memSet log every memory[...] access of the Python source; validated on every run by comparing the generated model\'s access log with a recording memory under the real device, event for event',
-           'getc/putc devices attached by address (py65/monitor.py) are C18; subscribers see one callback per logged event by C10/C11']
+           'getc/putc devices attached by address (py65/monitor.py) are C18; subscribers see one callback per logged event by C10/C11, and by the device-view runs here (ObservableMemory with every physical cell observed, event list compared with the recording memory\'s log)']
 ASSUMPTIONS = ['write values are erased in the compared multiset (addresses and kinds only), as the property states']
 LEVEL = 'proof'
 RULE = ('every declared opcode x boundary-biased states (registers, operands, pointers and PC aimed at page/wrap boundaries); distinct = distinct (opcode, register-class, pc-quadrant, touched-cell-count) signatures of executions that ran')
@@ -30,8 +35,102 @@ SPEC = dict(module='props.c12', devs=['6502', '65C02', '65Org16'], opcodes=_opco
             n_quick=60, n_thorough=2000, decimal=True)
 
 
+def _view_worker(args):
+    """Device view: the same instruction on an ObservableMemory in which EVERY physical cell has a
+    read and a write subscriber.  The subscribers must see exactly the access log a plain recording
+    memory saw (same order, same values, addresses reduced to the physical size) -- "a device mapped
+    at an address sees one event per architectural access", including accesses made through an
+    address that mirrors the cell above the modelled memory (65Org16)."""
+    dev, opcodes, per, seed = args
+    from py65.memory import ObservableMemory
+    classes = device_classes()
+    modes = classes[dev].disassemble
+    W, AW = widths(dev)
+    rng = random.Random(seed)
+    cases = cpu_props.make_cases(rng, dev, modes, opcodes, per, 'step', True)
+    om = ObservableMemory(addrWidth=AW)
+    phys = om.physMask
+    seen = []
+    om.subscribe_to_read(range(phys + 1), lambda a: seen.append(('r', a)))
+    om.subscribe_to_write(range(phys + 1), lambda a, v: seen.append(('w', a, v)))
+    subj = om._subject
+    out = dict(n=0, skipped=0, mirrored=0, findings=[])
+    for c in cases:
+        o = real_observe(c, classes)
+        if o.raised or not o.ops or o.ops[0] == 'oob':
+            out['skipped'] += 1
+            continue
+        log = o.ops[0]['log']
+        init = RecMem(c.seed, W, c.ov)
+        cells = {}
+        clash = False
+        for a in o.touched:
+            pa, v = a & phys, init.peek(a)
+            if cells.setdefault(pa, v) != v:
+                clash = True
+        if clash:
+            out['skipped'] += 1
+            continue
+        want = []
+        for e in log:
+            f = e.split(':')
+            want.append(('r', int(f[1]) & phys) if f[0] == 'r' else ('w', int(f[1]) & phys, int(f[2])))
+        if any(a > phys for a in o.touched):
+            out['mirrored'] += 1
+        for pa, v in cells.items():
+            subj[pa] = v
+        del seen[:]
+        mpu = classes[dev](memory=om, pc=None)
+        mpu.a, mpu.x, mpu.y, mpu.sp, mpu.p, mpu.pc = c.a, c.x, c.y, c.sp, c.p, c.pc
+        mpu.processorCycles, mpu.excycles, mpu.addcycles = c.cycles, c.excycles, c.addcycles
+        del seen[:]
+        err = None
+        try:
+            mpu.step()
+        except Exception as ex:
+            err = '%s: %s' % (type(ex).__name__, ex)
+        got = list(seen)
+        for pa in set(cells) | set(e[1] for e in got):
+            subj[pa] = 0
+        out['n'] += 1
+        if err or got != want:
+            opc = c.ov.get(c.pc)
+            name, mo = modes[opc]
+            out['findings'].append(dict(
+                key=dict(dev=dev, opcode=opc, mnemonic=name, mode=mo, aspect='device-view'),
+                what='%s %s %s $%02x on ObservableMemory with every cell observed: subscribers saw %s, the architectural '
+                     'accesses are %s' % (dev, name, mo, opc, err or got, want),
+                replay=dict(case=c.to_json(), subscribers_saw=err or [list(e) for e in got],
+                            expected=[list(e) for e in want])))
+    return out
+
+
 def explore(ctx):
     cpu_props.explore(ctx, SPEC)
+    classes = device_classes()
+    per = 5 if ctx.quick() else 120
+    jobs, k = [], 0
+    for dev in SPEC['devs']:
+        ops = _opcodes(dev, classes[dev].disassemble)
+        nch = 5 if dev == '65Org16' else 3
+        for i in range(nch):
+            jobs.append((dev, ops[i::nch], per if dev != '65Org16' else per * 2, ctx.seed * 7717 + k))
+            k += 1
+    with multiprocessing.Pool(min(16, len(jobs))) as pool:
+        res = pool.map(_view_worker, jobs)
+    n = sum(r['n'] for r in res)
+    seenk = set()
+    for r in res:
+        for f in r['findings']:
+            kk = (f['key']['dev'], f['key']['opcode'])
+            if kk not in seenk and len(seenk) < 12:
+                seenk.add(kk)
+                ctx.findings.append(f)
+    ctx.stats['evaluations'] += n
+    ctx.stats.setdefault('distribution', {})['device_view'] = dict(
+        cases=n, through_mirrored_addresses=sum(r['mirrored'] for r in res), skipped=sum(r['skipped'] for r in res))
+    ctx.note('device view (every cell of an ObservableMemory observed): %d instructions, %d through mirrored addresses, '
+             '%d skipped' % (n, sum(r['mirrored'] for r in res), sum(r['skipped'] for r in res)))
 
 
 def replay(ctx, path):
